@@ -45,7 +45,16 @@ def graph_shapes() -> dict[str, dict[str, list[str]]]:
 		# table are `<module path>#<name>`: a prefix test on them confuses `app.p` with `app.pq`), with dependants on both sides
 		'siblings': {'p': [], 'pq': [], 'r': ['pq'], 't': ['p', 'pq']},
 		'siblings2': {'t': ['pq', 'p'], 'pq': [], 'p': [], 'pqr': ['pq']},
+		# a module imports an already visited module FIRST and a not yet visited one after it (closure traversals that stop early)
+		'diamond2': {'a': ['b', 'c'], 'b': ['d'], 'c': ['d', 'e'], 'd': [], 'e': []},
+		# two leaves with name-free contents (see ANON) that can exchange their exact contents
+		'swap': {'a': ['p1', 'p2'], 'p1': ['lx'], 'p2': ['ly'], 'lx': [], 'ly': []},
 	}
+
+
+# leaves whose source does not mention their own name: `def val() -> T` / `v = …`; the content depends on the variant only, so
+# "edit lx to ly's variant and ly to lx's" exchanges the exact file contents of the two modules
+ANON = ('lx', 'ly')
 
 
 N_VARIANTS = 24
@@ -62,28 +71,34 @@ def module_source(name: str, imports: list[str], variant: int) -> str:
 	(9..12 parameters), where the module-level variable `v_<name>` takes its (inferred) type from, and what the locals `z`
 	and `y` in `h_<name>` are assigned from (an imported variable / the result of an imported wide function)."""
 	ty, lit = TYPES[variant % 4]
+	if name in ANON:
+		return '\n'.join([f'def val() -> {ty}:', f'\treturn {lit}', '', f'v = {lit}', ''])
 	var_mode = (variant // 4) % 3
 	loc_mode = (variant // 12) % 2
 	dotted = imports
 	name = name.replace('.', '_')
 	imports = [d.replace('.', '_') for d in imports]
-	lines = [f'from {PKG}.{d} import g_{i}, v_{i}, w_{i}' for d, i in zip(dotted, imports)]
+	lines = [f'from {PKG}.{d} import val, v' if d in ANON else f'from {PKG}.{d} import g_{i}, v_{i}, w_{i}' for d, i in zip(dotted, imports)]
+	gcall = {i: ('val()' if i in ANON else f'g_{i}()') for i in imports}
+	vname = {i: ('v' if i in ANON else f'v_{i}') for i in imports}
 	lines += ['', f'def g_{name}() -> {ty}:', f'\treturn {lit}', '']
 	n = wide_arity(name)
 	params = ', '.join([*(f'a{k}: int' for k in range(n - 1)), f'a{n - 1}: float'])
 	lines += [f'def w_{name}({params}) -> {ty}:', f'\treturn {lit}', '']
 	if imports and var_mode == 1:
-		lines.append(f'v_{name} = g_{imports[0]}()')
+		lines.append(f'v_{name} = {gcall[imports[0]]}')
 	elif imports and var_mode == 2:
-		lines.append(f'v_{name} = v_{imports[-1]}')
+		lines.append(f'v_{name} = {vname[imports[-1]]}')
 	else:
 		lines.append(f'v_{name} = {lit}')
 	lines += ['', f'def h_{name}() -> int:']
 	if imports and loc_mode == 1:
-		lines.append(f'\tz = v_{imports[0]}')
+		lines.append(f'\tz = {vname[imports[0]]}')
 	else:
 		lines.append(f'\tz = v_{name}')
 	for i in imports[:2]:
+		if i in ANON:
+			continue
 		k = wide_arity(i)
 		args = ', '.join([*(str(j) for j in range(k - 1)), f'{k - 1}.0'])
 		lines.append(f'\ty_{i} = w_{i}({args})')
@@ -545,6 +560,25 @@ def search_warm_cold(ctx: Ctx, only: list[tuple[str, dict[str, int], list[list[s
 				ops = [['run', '1'], ['edit', m1, str(4 * (variants[m1] // 4) + (variants[m1] + 1 + rng.randrange(3)) % 4)], ['run', '1'],
 					['edit', m2, str(rng.randrange(N_VARIANTS))], ['run', rng.choice(['0', '1'])]]
 				histories.append((shape, variants, ops))
+		# flow-through histories, always run: every module takes its variable from its LAST import (var_mode 2) and a local from
+		# its FIRST (loc_mode 1), so a type declared in a leaf reaches the top; then the declared type of a module that is
+		# imported after an already visited one is changed (diamond2: `e`), and two leaves exchange their exact contents (swap)
+		flow = lambda graph, t0: {m: 20 + (t0 + i) % 4 for i, m in enumerate(graph)}
+		for shape, edits in (('diamond2', [('e', None)]), ('swap', [('lx', 'ly')]), (rng.choice(['chain4', 'vee', 'fan3', 'prefix4']), [(None, None)])):
+			graph = graph_shapes()[shape]
+			variants = flow(graph, rng.randrange(4))
+			ops = [['run', '1']]
+			for x, y in edits:
+				if x is None:
+					x = [m for m in graph if not graph[m]][-1]
+				if y is None:
+					ops.append(['edit', x, str(4 * (variants[x] // 4) + (variants[x] + 1 + rng.randrange(3)) % 4)])
+				else:
+					if variants[x] % 4 == variants[y] % 4:
+						variants[y] = 4 * (variants[y] // 4) + (variants[y] + 1) % 4
+					ops += [['edit', x, str(variants[y])], ['edit', y, str(variants[x])]]
+			ops.append(['run', '1'])
+			histories.append((shape, variants, ops))
 	n_random = ctx.scale(8, 80) if only is None else 0
 	hist: dict[str, int] = {}
 	seen: set[str] = set()
